@@ -289,3 +289,42 @@ Qed.
 (* size of the reachable product (for the evidence) *)
 Definition reach_size : nat := Eval vm_compute in length Rl.
 Definition reach_frontier_left : nat := Eval vm_compute in length (snd reach).
+
+(* ------------------------------------------------------------------------------------------------ *)
+(* deciding membership in the alphabet (used to show that concrete event lists meet the hypothesis) *)
+
+Definition rkind_eqb (a b : rkind) : bool :=
+  match a, b with
+  | OpenOk, OpenOk | Keepalive, Keepalive | UpdateOk, UpdateOk | Notification, Notification
+  | Refresh, Refresh | Operational, Operational | UnknownType, UnknownType => true
+  | OpenBad x, OpenBad y | UpdateBad x, UpdateBad y | RefreshBad x, RefreshBad y | HeaderErr x, HeaderErr y => x =? y
+  | _, _ => false
+  end.
+Definition event_eqb (a b : event) : bool :=
+  match a, b with
+  | Tick, Tick | ConnectOk, ConnectOk | ConnectFail, ConnectFail | Eof, Eof | SockErr, SockErr
+  | HoldExpire, HoldExpire | OpenWaitExpire, OpenWaitExpire | ApiRefresh, ApiRefresh | ProcessBroken, ProcessBroken => true
+  | Incoming x, Incoming y => Bool.eqb x y
+  | Recv x, Recv y => rkind_eqb x y
+  | Teardown x, Teardown y => x =? y
+  | Reload Same, Reload Same | Reload Changed, Reload Changed | Reload Removed, Reload Removed => true
+  | _, _ => false
+  end.
+Lemma rkind_eqb_eq a b : rkind_eqb a b = true -> a = b.
+Proof. destruct a, b; simpl; try congruence; intro H; apply Z.eqb_eq in H; congruence. Qed.
+Lemma event_eqb_eq a b : event_eqb a b = true -> a = b.
+Proof.
+  destruct a, b; simpl; try congruence; intro H;
+    try (apply Bool.eqb_prop in H; congruence);
+    try (apply rkind_eqb_eq in H; congruence);
+    try (apply Z.eqb_eq in H; congruence);
+    repeat match goal with x : reload |- _ => destruct x end; congruence.
+Qed.
+Definition over_alphabet_b (es : list event) : bool :=
+  forallb (fun e => existsb (event_eqb e) alphabet) es.
+Lemma over_alphabet_dec es : over_alphabet_b es = true -> over_alphabet es.
+Proof.
+  unfold over_alphabet_b, over_alphabet. intro H. rewrite forallb_forall in H. apply Forall_forall.
+  intros e He. specialize (H e He). apply existsb_exists in H. destruct H as [x [Hx E]].
+  apply event_eqb_eq in E. subst. exact Hx.
+Qed.
